@@ -570,6 +570,48 @@ func overlapLoops(c *vh.Ctx) {
 	}
 }
 
+// scenario (SECS-I): line-level retransmissions in both directions. The peer behaves as a sender that
+// lost the library's ACK: after every acknowledged block (single-block messages, and the non-final
+// and final blocks of multi-block messages) it transmits the identical block again once or twice;
+// and as a receiver that rejects / misses the first transmission of every block the library sends,
+// so the library retransmits. The counters count MESSAGES, not transmissions: dataRecv = messages
+// the peer sent (each handed to the handlers / a waiter exactly once), dataSent = messages the peer
+// received.
+func s1Retransmissions(c *vh.Ctx, r *rand.Rand) {
+	dup := int32(1 + r.Intn(2))
+	s := newS(c, "retransmissions", genx.DefaultOptions(), func(p *genx.Peer) { p.Dup.Store(dup) })
+	defer s.finish()
+	e := s.e
+	if !s.must(e.Open(5*time.Second) == nil, "open") {
+		return
+	}
+	bg := context.Background()
+	round := func(where string) {
+		p := e.Peer(e.Gen())
+		s.wait(e.Start(genx.KSyncW, bg), e.Start(genx.KSyncNW, bg), e.Start(genx.KAsync, bg), e.Start(genx.KSyncW, bg))
+		_ = p.Primary(1)
+		_ = p.PrimaryBig(2, 300+r.Intn(300)) // 2-3 blocks
+		_ = p.Primary(3)
+		_ = p.PrimaryBig(4, 244*2) // exactly two full blocks
+		_ = p.PrimaryBig(5, 700)
+		s.quiesce(true, where)
+	}
+	round("duplicates")
+	if d := e.Peer(0).DupSent.Load(); d == 0 {
+		s.must(false, "the peer retransmitted acknowledged blocks")
+	}
+	// the library's own blocks: first transmission NAKed, then first transmission unanswered
+	e.Peer(0).NakFirst.Store(1)
+	round("nak-first")
+	e.Peer(0).NakFirst.Store(2)
+	s.wait(e.Start(genx.KSyncW, bg), e.Start(genx.KSyncNW, bg))
+	s.quiesce(true, "silent-first")
+	e.Peer(0).NakFirst.Store(0)
+	if s.dropAndReconnect() {
+		round("next-generation")
+	}
+}
+
 // scenario: OpenBackground against a peer whose first k dials fail: the initial-connect retry loop
 // holds the reconnecting gauge positive, is NOT a reconnect, and sends meanwhile are refused.
 func coldConnect(c *vh.Ctx, k int) {
@@ -672,7 +714,16 @@ func random(c *vh.Ctx, r *rand.Rand, idx int) {
 	for i := range mode {
 		mode[i] = r.Intn(4)
 	}
+	lineMode := make([]int, 16)
+	for i := range lineMode {
+		lineMode[i] = r.Intn(9)
+	}
 	s := newS(c, fmt.Sprintf("random-%d", idx), o, func(p *genx.Peer) {
+		if s1() { // line-level faults: duplicates of acknowledged blocks / first transmission NAKed or missed
+			lm := lineMode[p.Gen%len(lineMode)]
+			p.Dup.Store(int32(lm % 3))
+			p.NakFirst.Store(int32(lm / 3))
+		}
 		switch mode[p.Gen%len(mode)] {
 		case 1:
 			p.Mute.Store(true)
@@ -857,6 +908,7 @@ func main() {
 		closeReopen(c)
 		if s1() {
 			closeAfterAck(c, 10)
+			s1Retransmissions(c, r)
 		}
 	}
 	for i := 0; i < c.N; i++ {
